@@ -31,7 +31,7 @@ SubjEmit(st, s, t, v) ==
 (* Publisher::p_is_closed of subscriber slot p: is_finished() || is_closed() *)
 PClosed(st, p) ==
   LET nd == st.nodes[p] IN
-  IF nd.h # 0 THEN 2
+  IF RHeld(nd) THEN 2
   ELSE IF ~nd.f THEN 1
   ELSE Fin(st, nd.d)
 
@@ -81,10 +81,10 @@ SubjectStep(st, fr) ==
     [] fr.f = "ptake" ->
          [st EXCEPT !.nodes[fr.n].f = FALSE, !.nodes[fr.n].q = <<>>]
     [] fr.f = "squery" ->         \* x: 1 len, 2 is_empty, 3 is_finished/is_closed ; result in ret
-         IF on.h # 0 THEN Fault(st, "reentry")
+         IF RHeld(on) THEN Fault(st, "reentry")
          ELSE IF fr.x = 3 THEN [st EXCEPT !.ret = B(~on.f)]
          ELSE IF ~on.f THEN [st EXCEPT !.ret = IF fr.x = 1 THEN I(0) ELSE B(TRUE)]
-         ELSE IF cn.h # 0 THEN Fault(st, "reentry")
+         ELSE IF RHeld(cn) THEN Fault(st, "reentry")
          ELSE IF fr.x = 1 THEN [st EXCEPT !.ret = I(Len(on.q) + Len(cn.q))]
          ELSE [st EXCEPT !.ret = B(on.q = <<>> /\ cn.q = <<>>)]
     [] fr.f = "sretain" ->        \* retain(): prune closed publishers of the live list
@@ -100,14 +100,14 @@ SubjectStep(st, fr) ==
                   \o SubjEmit(st, s, "N", fr.v))
     [] fr.f = "vset" -> [st EXCEPT !.nodes[fr.n].v = fr.v]
     [] fr.f = "bsub" ->           \* observer.next(value) with the value guard held, then join
-         Push(st, <<Acq(VNode(st, s)), Fr("bsub2", s, "", U, fr.x), Rel(VNode(st, s)),
+         Push(st, <<AcqR(VNode(st, s)), Fr("bsub2", s, "", U, fr.x), RelR(VNode(st, s)),
                     Fr("ssub", s, "", U, fr.x)>>)
     [] fr.f = "bsub2" -> Push(st, <<CallN(fr.x, st.nodes[VNode(st, s)].v)>>)
     [] fr.f = "bpeek" ->
-         IF st.nodes[VNode(st, s)].h # 0 THEN Fault(st, "reentry")
+         IF RHeld(st.nodes[VNode(st, s)]) THEN Fault(st, "reentry")
          ELSE [st EXCEPT !.ret = st.nodes[VNode(st, s)].v]
     [] fr.f = "bnextby" ->        \* next_by(f): peek, then next(f(value))
-         IF st.nodes[VNode(st, s)].h # 0 THEN Fault(st, "reentry")
+         IF RHeld(st.nodes[VNode(st, s)]) THEN Fault(st, "reentry")
          ELSE Push(st, <<Fr("bnext", s, "", MapF(fr.x, st.nodes[VNode(st, s)].v), 0)>>)
     [] OTHER -> Fault(st, "spec:unknown-subject-frame")
 
